@@ -33,21 +33,33 @@ structure Entry where
   address : String
 deriving DecidableEq, Repr
 
-/-- one reply of `broadcast`: kept iff 64 bytes long and decodable as a GetDeviceResponse -/
-def entryOf (cfg : Cfg) (replyLayout : Layout) (d : Bytes) : Option Entry :=
+/-- the configured name of the controller a reply comes from ("-" for none / empty) -/
+def nameOf (cfg : Cfg) (serial : Val) : String :=
+  let n := match serial with | .u32 n => n | _ => 0
+  match cfg.controllers.find? (·.serial == n) with
+  | some c => if c.name = "" then "-" else c.name
+  | none => "-"
+
+/-- the reported IPv4 address completed with a port -/
+def addrOf (ip : Val) (port : Nat) : String :=
+  match ipOf ip with
+  | some (a, b, c, d) => s!"{a}.{b}.{c}.{d}:{port}"
+  | none => "invalid"
+
+/-- one entry from the values of one decoded reply (hand-written reading of GetDevices; `Gen.Discover.entry` is the
+    translated one, C11 proves them equal) -/
+def entryCore (cfg : Cfg) (r : List Val) : Entry :=
+  ⟨r.drop 1, nameOf cfg (r.getD 1 .none_), addrOf (r.getD 2 .none_) (if cfg.broadcastValid then cfg.broadcastPort else 60000)⟩
+
+/-- one reply of `broadcast`: kept iff 64 bytes long and decodable as a GetDeviceResponse; `mk` builds the entry -/
+def entryWith (mk : Cfg → List Val → Entry) (cfg : Cfg) (replyLayout : Layout) (d : Bytes) : Option Entry :=
   if d.length ≠ 64 then none
   else match unmarshal F T B replyLayout d with
-    | .ok r =>
-      let serial := match r.getD 1 .none_ with | .u32 n => n | _ => 0
-      let name := match cfg.controllers.find? (·.serial == serial) with
-        | some c => if c.name = "" then "-" else c.name
-        | none => "-"
-      let port := if cfg.broadcastValid then cfg.broadcastPort else 60000
-      let addr := match ipOf (r.getD 2 .none_) with
-        | some (a, b, c, d) => s!"{a}.{b}.{c}.{d}:{port}"
-        | none => "invalid"
-      some ⟨r.drop 1, name, addr⟩
+    | .ok r => some (mk cfg r)
     | _ => none
+
+def entryOf (cfg : Cfg) (replyLayout : Layout) (d : Bytes) : Option Entry :=
+  entryWith F T B entryCore cfg replyLayout d
 
 /-- `GetDevices`: every kept reply in arrival order, duplicates included -/
 def discover (cfg : Cfg) (replyLayout : Layout) (ds : List Bytes) : List Entry :=
